@@ -476,7 +476,7 @@ def h1_scenario(seed, n_steps=10):
                     stream.readable = False
                     body = rng.choice([None, b"abc"])
                     try:
-                        resp = conn.handle_request(httpcore.Request("POST" if body else "GET", "http://ex.org/", content=body))
+                        resp = conn.handle_request(httpcore.Request("POST" if body else "GET", "http://ex.org/", headers=[(b"Host", b"ex.org")] + ([(b"Content-Length", b"3")] if body else []), content=body))
                     except httpcore.ConnectionNotAvailable:
                         cna = True
                         resp = None
@@ -508,7 +508,7 @@ def h1_scenario(seed, n_steps=10):
                         r.close()
                 elif a == "second" and open_resp is not None:
                     try:
-                        conn.handle_request(httpcore.Request("GET", "http://ex.org/"))
+                        conn.handle_request(httpcore.Request("GET", "http://ex.org/", headers=[(b"Host", b"ex.org")]))
                         out["oracle"].append({"clause": "second-request-admitted-while-exchange-open", "step": step})
                     except httpcore.ConnectionNotAvailable:
                         cna = True
@@ -534,6 +534,24 @@ def h1_scenario(seed, n_steps=10):
                 out["oracle"].append({"clause": "h1-server-closed-idle-not-expired", "step": step})
         out["log"] = list(conn._lg)
     return out
+
+
+def h1_revive_replay():
+    """The witness `LifeProps.h1_closed_revives` on the implementation: an HTTP/1.1 connection object closed from outside during an
+    exchange whose response is then completed from data h11 has already buffered calls itself IDLE again.  -> state name after each step"""
+    clock = servers.Clock(0.0)
+    with servers.patched_clock(clock):
+        stream = H1Stream()
+        conn = SpyH1(httpcore.Origin(b"http", b"ex.org", 80), stream, keepalive_expiry=None, clock=clock)
+        stream.chunks = [b"HTTP/1.1 200 OK\r\nContent-Length: 5\r\n\r\nhello"]      # head and body arrive in one read
+        resp = conn.handle_request(httpcore.Request("GET", "http://ex.org/", headers=[(b"Host", b"ex.org")]))
+        states = [conn._state.name]
+        conn.close()                                                                  # from outside, during the exchange
+        states.append(conn._state.name)
+        body = resp.read()                                                            # completes from h11's buffer
+        resp.close()
+        states.append(conn._state.name)
+        return states, body, list(conn._lg)
 
 
 def h1_model_lines(sc):
@@ -573,6 +591,14 @@ def run(rec, driver, rng, n_h2, n_h1, label):
                     rec.disagree("life-h2", {"seed": seed, "runtime": runtime, "log": sc["log"][:n], "now": now, "impl": impl, "model": m,
                                              "steps": sc["steps"]})
                     break
+    if n_h1:
+        states, body, log = h1_revive_replay()
+        rec.evals += 1
+        rec.dist["life-h1:witness h1_closed_revives replayed -> " + "/".join(states)] += 1
+        if driver:
+            ans = driver.run(["life1 none " + ",".join(log + ["q@0:0"])])[0]
+            if h1_model_cut(ans).split("|")[0] != states[-1]:
+                rec.disagree("life-h1", {"witness": "h1_closed_revives", "impl_states": states, "log": log, "model": ans})
     for i in range(n_h1):
         seed = rng.randrange(1 << 30)
         sc = h1_scenario(seed)
@@ -591,6 +617,11 @@ def run(rec, driver, rng, n_h2, n_h1, label):
                 if h1_model_cut(m) != impl:
                     rec.disagree("life-h1", {"seed": seed, "log": sc["log"][:n], "now": now, "readable": r, "impl": impl, "model": m, "steps": sc["steps"]})
                     break
+    # a lock-step that never sees a completed exchange / an opened stream says nothing: treat a degenerate generator as a broken tie
+    if n_h1 >= 100 and (rec.dist["life-h1-op:prog11"] == 0 or rec.dist["life-h1-op:prog00"] == 0 or rec.dist["life-h1-op:aclose"] == 0):
+        rec.ctx.broken.append({"kind": "correspondence", "family": "life-h1", "what": "generator degenerate: no completed / failed / externally closed exchange"})
+    if n_h2 >= 50 and (rec.dist["life-h2-op:open"] == 0 or rec.dist["life-h2-op:settle"] == 0 or rec.dist["life-h2-op:back0"] == 0):
+        rec.ctx.broken.append({"kind": "correspondence", "family": "life-h2", "what": "generator degenerate: no stream opened / closed / request backed out"})
     return bad
 
 
